@@ -22,6 +22,7 @@ from .model import attr_chain
 from .model import eval_order
 from .model import last_attr
 from .paths import C
+from .paths import class_names
 from .paths import Engine
 from .paths import is_const
 from .paths import R
@@ -109,8 +110,9 @@ class LayerSpec(Spec):
         if isinstance(cond, ast.Call) and isinstance(cond.func, ast.Name) and cond.func.id == "isinstance" and len(cond.args) == 2:
             v = self.value(cond.args[0], st, depth)
             if is_ev(v):
-                t = cond.args[1]
-                names = [last_attr(e) for e in t.elts] if isinstance(t, ast.Tuple) else [last_attr(t)]
+                names = class_names(cond.args[1])
+                if not names:
+                    return None
                 return any(self.ev_isa(v[1], n) for n in names)
         return None
 
